@@ -107,6 +107,7 @@ struct Tap
     long long frames; // frames generated since creation
     long long periods;
     int maxPeriod;
+    std::vector<int> pf; // frames of each period since last clear
     bool logRaw;
     std::vector<unsigned> rawlog;
     Tap() : raw(0), frames(0), periods(0), maxPeriod(0), logRaw(false) { memset(shadow, 0, sizeof shadow); memset(keyed, 0, sizeof keyed); memset(tlcount, 0, sizeof tlcount); }
@@ -115,7 +116,7 @@ struct Tap
     static void cb(void *ud, int kind, size_t chip, unsigned a, unsigned b, unsigned c) { ((Tap *)ud)->on(kind, chip, a, b, c); }
     void on(int kind, size_t chip, unsigned a, unsigned b, unsigned c)
     {
-        if(kind == 'G') { frames += a; ++periods; if((int)a > maxPeriod) maxPeriod = (int)a; if((int)b > maxPeriod) maxPeriod = (int)b; return; }
+        if(kind == 'G') { frames += a; ++periods; if((int)a > maxPeriod) maxPeriod = (int)a; if((int)b > maxPeriod) maxPeriod = (int)b; if(pf.size() < 100) pf.push_back((int)a); return; }
         ++raw;
         if(kind == 'P') { push("span", (int)(chip * 6 + a), (int)b); return; }
         unsigned port = a & 1, reg = b & 0xFF, val = c & 0xFF;
@@ -171,7 +172,7 @@ struct Tap
         }
         push("raw", (int)chip, (int)reg, (int)val);
     }
-    void clear() { ops.clear(); raw = 0; }
+    void clear() { ops.clear(); raw = 0; pf.clear(); }
     void write(JW &w, size_t maxops = 400) const
     {
         w.begin_arr();
@@ -233,10 +234,11 @@ static inline void writeMidiChannel(JW &w, OPNMIDIplay *p, size_t c)
         OPNMIDIplay::MIDIchannel::NoteInfo &ni = i->value;
         long long bank, idx; insIdentity(p, ni.ains, bank, idx);
         w.begin_obj();
-        w.kv("n", ni.note); w.kv("v", ni.vol); w.kv("tone", ni.noteTone);
+        w.kv("n", ni.note); w.kv("v", ni.isBlank ? 0 : ni.vol); w.kv("tone", ni.isBlank ? 0 : ni.noteTone);
+        w.kv("ttlus", (ni.isBlank || !(ni.ttl > 0)) ? 0 : (long long)(ni.ttl * 1e9 + 0.5));
         w.kb("gl", !ni.isBlank && ni.glideRate != HUGE_VAL); w.kb("ttl", !ni.isBlank && ni.ttl > 0); w.kb("ext", ni.isOnExtendedLifeTime);
-        w.kb("perc", ni.isPercussion); w.kb("blank", ni.isBlank);
-        w.kv("ib", bank); w.kv("ii", idx); w.kv("mi", (long long)ni.midiins);
+        w.kb("perc", !ni.isBlank && ni.isPercussion); w.kb("blank", ni.isBlank);
+        w.kv("ib", bank); w.kv("ii", idx); w.kv("mi", ni.isBlank ? 0 : (long long)ni.midiins);
         w.key("ph"); w.begin_arr();
         for(unsigned k = 0; k < ni.chip_channels_count; ++k)
         {
